@@ -2,6 +2,8 @@
 executed and judged.  A case is JSON: {"prop", "spec", "ops", "opts"}."""
 from __future__ import annotations
 
+import typing
+
 from . import engine as E
 from . import gen
 
@@ -192,3 +194,750 @@ def run_case(case):
         v["switch_logs"] = {str(k): sl for k, sl in ex.switch_logs.items()}
         v["digest"] = ex.digest
     return v
+
+
+# --------------------------------------------------------------------------
+# C12 — discriminated unions pick exactly the tagged class in any definition order
+# --------------------------------------------------------------------------
+
+def gen_c12(rng, profile):
+    from . import family as F
+    r = rng
+    fmt_mixin = r.choice(["Dict", "Dict", "JSON", "ORJSON", "MsgPack", "YAML"])
+    root_plain = r.random() < 0.35
+    lazy_p = r.choice([0.0, 0.0, 0.5])
+    style = r.choice(["cvar", "cvar", "literal"])
+    dialects = [{"name": "D1", "date": "slash"}, {"name": "D2", "omit_none": True}]
+    dsup = r.random() < 0.3
+    n = [0]
+
+    def name(p):
+        n[0] += 1
+        return f"{p}{n[0]}"
+
+    def cfg(extra=None, mixin=True):
+        c = {}
+        if r.random() < lazy_p:
+            c["lazy"] = True
+        if dsup:
+            c["cgo"] = ["ADD_DIALECT_SUPPORT"]
+        if extra:
+            c.update(extra)
+        return c or None
+
+    root = name("R")
+    rc = {"name": root, "mixins": [] if root_plain else [fmt_mixin],
+          "fields": [{"n": "a", "t": ["int"]}]}
+    root_has_default = False
+    if r.random() < 0.3:
+        rc["fields"].append({"n": "a2", "t": ["int"], "d": ["i", 0]})
+        root_has_default = True
+    cfg_discr = None
+    if not root_plain and r.random() < 0.5:
+        cfg_discr = {"field": "t", "sub": True, "sup": False,
+                     "tagger": r.choice([None, None, None, "name", "list"])}
+    c0 = cfg({"discriminator": cfg_discr} if cfg_discr else None)
+    if c0:
+        rc["cfg"] = c0
+    if style == "cvar" and r.random() < 0.5:
+        rc["cvars"] = {"t": root.lower()}
+    hier = [rc]
+    has_default = {root: root_has_default}
+
+    def new_variant():
+        parent = r.choice(hier)["name"] if r.random() < 0.45 else root
+        vn = name("V")
+        vc = {"name": vn, "bases": [parent], "mixins": [], "fields": []}
+        dflt = has_default[parent] or style == "literal"
+        for i in range(r.choice([0, 1, 1, 2])):
+            f = {"n": f"{vn.lower()}_{i}", "t": ["int"]}
+            if dflt or r.random() < 0.5:
+                f["d"] = ["i", r.choice([0, 7])]
+                dflt = True
+            vc["fields"].append(f)
+        if style == "literal":
+            vc["fields"].insert(0, {"n": "t", "t": ["str"], "literal": vn.lower(),
+                                    "d": ["s", vn.lower()]})
+            dflt = True
+        elif r.random() < 0.85:
+            vc["cvars"] = {"t": vn.lower()}
+        has_default[vn] = dflt
+        hier.append(vc)
+        return vc
+
+    def new_holder():
+        hn = name("H")
+        base = r.choice(hier)["name"] if r.random() < 0.25 else root
+        if style == "cvar" and r.random() < 0.35:
+            d = {"field": None, "sub": True, "sup": r.random() < 0.7, "tagger": None}
+        else:
+            d = {"field": "t", "sub": r.random() < 0.9, "sup": r.random() < 0.35,
+                 "tagger": r.choice([None, None, None, "name"])}
+            if not d["sub"]:
+                d["sup"] = True
+        t = ["ann", ["cls", base], d]
+        if cfg_discr:
+            # a class-level discriminator and an Annotated one on the same
+            # hierarchy compose in a way the statement does not define: nest the
+            # root plainly and let its own Config dispatch
+            t = ["cls", root]
+        wrap = r.random()
+        if wrap < 0.2:
+            t = ["list", t]
+        elif wrap < 0.3:
+            t = ["dict", t]
+        elif wrap < 0.4:
+            t = ["opt", t]
+        hc = {"name": hn, "mixins": [r.choice([fmt_mixin, "Dict"])],
+              "fields": [{"n": "f", "t": t}]}
+        c = cfg()
+        if c:
+            hc["cfg"] = c
+        return hc
+
+    chunks = [[rc]]
+    first = chunks[0]
+    for _ in range(r.randint(0, 2)):
+        first.append(new_variant())
+    holders = []
+    if r.random() < 0.7:
+        h = new_holder()
+        holders.append(h)
+        first.append(h)
+    for _ in range(r.randint(2, 5)):
+        ch = []
+        for _ in range(r.randint(1, 2)):
+            if r.random() < 0.75:
+                ch.append(new_variant())
+            else:
+                h = new_holder()
+                holders.append(h)
+                ch.append(h)
+        chunks.append(ch)
+    spec = {"pep563": r.random() < 0.3, "dialects": dialects, "chunks": chunks}
+    fam = F.Fam(spec)
+    all_variants = [c["name"] for c in hier]
+
+    def payload(defined, discr, base):
+        """(document, note) for a decode through discriminator `discr` of `base`"""
+        x = r.random()
+        pool_defined = [v for v in all_variants if v in defined]
+        pool_future = [v for v in all_variants if v not in defined]
+        if x < 0.65 or not pool_future:
+            target = r.choice(pool_defined)
+        else:
+            target = r.choice(pool_future)
+        doc = {}
+        for f in fam.all_fields(target):
+            if f.get("literal") is not None:
+                continue
+            if "d" in f and r.random() < 0.5:
+                continue
+            doc[f["n"]] = r.choice([0, 1, 2, 5])
+        tags = fam.tag(target, discr if discr.get("field") else None)
+        if discr.get("field"):
+            y = r.random()
+            if y < 0.1:
+                pass
+            elif y < 0.2:
+                doc[discr["field"]] = "nope"
+            elif tags:
+                doc[discr["field"]] = r.choice(tags)
+            else:
+                doc[discr["field"]] = target.lower()
+        z = r.random()
+        if z < 0.08 and doc:
+            k = r.choice(sorted(doc))
+            if k != discr.get("field"):
+                doc[k] = "x"
+        elif z < 0.14:
+            doc.pop("a", None)
+        return doc
+
+    def wrap_payload(t, doc):
+        if t[0] == "list":
+            return [doc]
+        if t[0] == "dict":
+            return {"k": doc}
+        return doc
+
+    ops = []
+    codecs = []
+    cur = 1
+    defined = fam.defined_after(cur)
+    nops = r.randint(6, 18)
+    dec_method = {"Dict": "from_dict", "JSON": "from_json", "ORJSON": "from_json",
+                  "MsgPack": "from_msgpack", "YAML": "from_yaml"}
+
+    def decode_event():
+        hs = [h for h in holders if h["name"] in defined]
+        kinds = []
+        if cfg_discr:
+            kinds += ["cfg"] * 3
+        if hs:
+            kinds += ["holder"] * 4
+        kinds += ["codec"] * 2
+        kind = r.choice(kinds)
+        if kind == "cfg":
+            m = r.choice(fam.methods(root))
+            m = m if m.startswith("from_") else "from_dict"
+            op = {"k": "call", "cls": root, "m": m,
+                  "inp": payload(defined, cfg_discr, root), "via": "cfg"}
+        elif kind == "holder":
+            h = r.choice(hs)
+            t = h["fields"][0]["t"]
+            ann = t if t[0] in ("ann", "cls") else t[1]
+            hd, hb = (ann[2], ann[1][1]) if ann[0] == "ann" else (cfg_discr, ann[1])
+            ms = [m for m in fam.methods(h["name"]) if m.startswith("from_")]
+            op = {"k": "call", "cls": h["name"], "m": r.choice(ms),
+                  "inp": {"f": wrap_payload(t, payload(defined, hd, hb))},
+                  "via": "holder"}
+        else:
+            if codecs and r.random() < 0.6:
+                base = r.choice(codecs)
+                op = {k: base[k] for k in ("k", "id", "fmt", "dir", "shape")}
+            else:
+                b = r.choice([v for v in all_variants if v in defined]) if r.random() < 0.2 else root
+                if style == "cvar" and r.random() < 0.3:
+                    d = {"field": None, "sub": True, "sup": r.random() < 0.7, "tagger": None}
+                else:
+                    d = {"field": "t", "sub": True, "sup": r.random() < 0.35,
+                         "tagger": r.choice([None, None, "name"])}
+                shape = ["ann", ["cls", b], d]
+                if cfg_discr:
+                    shape = ["cls", root]
+                op = {"k": "codec", "id": len(codecs), "fmt": r.choice(["basic", "basic", "orjson", "msgpack", "yaml"]),
+                      "dir": "dec", "shape": shape}
+                codecs.append(dict(op))
+            if op["shape"][0] == "ann":
+                op["inp"] = payload(defined, op["shape"][2], op["shape"][1][1])
+            else:
+                op["inp"] = payload(defined, cfg_discr, root)
+            op["via"] = "codec"
+        if dsup and op["k"] == "call" and r.random() < 0.4:
+            op["dialect"] = r.choice(["D1", "D2"])
+        return op
+
+    for _ in range(nops):
+        if cur < len(chunks) and r.random() < 0.3:
+            ops.append({"k": "define", "chunk": cur})
+            cur += 1
+            defined = fam.defined_after(cur)
+        else:
+            ops.append(decode_event())
+    while cur < len(chunks):
+        ops.append({"k": "define", "chunk": cur})
+        cur += 1
+        defined = fam.defined_after(cur)
+        ops.append(decode_event())
+    return {"prop": "C12", "spec": spec, "ops": ops, "opts": {}}
+
+
+def _intlike(v):
+    return isinstance(v, int) and not isinstance(v, bool)
+
+
+def c12_accepts(fam, cname, doc):
+    """model of 'class accepts the input' for the int-only C12 grammar.
+    -> expected canon object or an error name"""
+    if not isinstance(doc, dict):
+        return "error"
+    fields = []
+    for f in fam.all_fields(cname):
+        n_ = f["n"]
+        if f.get("literal") is not None:
+            if n_ in doc and doc[n_] != f["literal"]:
+                return "InvalidFieldValue"
+            fields.append([n_, ["str", f["literal"]]])
+            continue
+        if n_ in doc:
+            if not _intlike(doc[n_]):
+                return "InvalidFieldValue"
+            fields.append([n_, ["int", doc[n_]]])
+        elif "d" in f:
+            fields.append([n_, ["int", f["d"][1]]])
+        else:
+            return "MissingField"
+    return ["obj", cname, fields]
+
+
+def c12_model(fam, defined, base, discr, doc):
+    """-> ("obj", canon) | ("exc", name) | ("any-exc",)"""
+    from . import gen as G
+    el = [v for v in G.eligible_variants(fam, base, discr, defined)]
+    if discr.get("field"):
+        if not isinstance(doc, dict) or discr["field"] not in doc:
+            return ("exc", "MissingDiscriminatorError")
+        tag = doc[discr["field"]]
+        hits = [v for v in el if tag in fam.tag(v, discr)]
+        if not hits:
+            return ("exc", "SuitableVariantNotFoundError")
+        # tags are unique in generated hierarchies; with tagger=list two tags map to one class
+        target = hits[-1] if len(set(hits)) > 1 else hits[0]
+        if len(set(hits)) > 1:
+            return ("skip",)
+        exp = c12_accepts(fam, target, doc)
+        if isinstance(exp, str):
+            return ("exc", exp)
+        return ("obj", exp)
+    for v in el:
+        exp = c12_accepts(fam, v, doc)
+        if not isinstance(exp, str):
+            return ("obj", exp)
+    return ("exc", "SuitableVariantNotFoundError")
+
+
+def _unwrap_result(t, v):
+    """canon of the decoded element under list/dict/opt wrappers"""
+    if t[0] == "list" and v[0] == "list" and v[1]:
+        return v[1][0]
+    if t[0] == "dict" and v[0] == "dict" and v[1]:
+        return v[1][0][1]
+    return v
+
+
+def oracle_c12(ex, idx, op, out):
+    from . import universe as U
+    fam = ex.fam
+    defined = set(ex.sut.defined)
+    via = op.get("via")
+    if via == "cfg":
+        d = fam.own_cfg(op["cls"]).get("discriminator")
+        if not d:
+            return None
+        base, t, doc, nested = op["cls"], ["cls", op["cls"]], op["inp"], False
+    elif via == "holder":
+        if op["cls"] not in fam.classes:
+            return None
+        t = fam.cls(op["cls"])["fields"][0]["t"]
+        ann = t if t[0] in ("ann", "cls") else t[1]
+        if ann[0] == "ann":
+            d, base = ann[2], ann[1][1]
+        else:
+            base = ann[1]
+            d = fam.own_cfg(base).get("discriminator") if base in fam.classes else None
+            if not d:
+                return None
+        doc = op["inp"].get("f") if isinstance(op["inp"], dict) else None
+        if t[0] == "list":
+            doc = doc[0] if doc else None
+        elif t[0] == "dict":
+            doc = doc.get("k") if isinstance(doc, dict) else None
+        nested = True
+    elif via == "codec":
+        ann = op["shape"]
+        if ann[0] == "ann":
+            d, base = ann[2], ann[1][1]
+        else:
+            base = ann[1]
+            d = fam.own_cfg(base).get("discriminator") if base in fam.classes else None
+            if not d:
+                return None
+        t, doc, nested = ann, op["inp"], False
+    else:
+        return None
+    if base not in defined:
+        return None
+    m = c12_model(fam, defined, base, d, doc)
+    if m[0] == "skip":
+        return None
+    bad = None
+    if m[0] == "obj":
+        if out["s"] != "ok":
+            bad = f"expected instance of {m[1][1]}, got {out['s']}:{(out.get('e') or {}).get('type')}"
+        else:
+            got = out["v"]
+            if nested:
+                got = got[2][0][1] if got[0] == "obj" and got[2] else got
+                got = _unwrap_result(t, got)
+            if not U.same(got, m[1]):
+                bad = f"expected {m[1][1]} instance per registry model, got {got[1] if got[0] == 'obj' else got[0]}"
+    else:
+        want = m[1]
+        if out["s"] != "exc":
+            bad = f"expected {want}, got a value"
+        else:
+            e = out["e"]
+            names = [e["type"]]
+            while "ctx" in e:
+                e = e["ctx"]
+                names.append(e["type"])
+            if want in ("MissingDiscriminatorError", "SuitableVariantNotFoundError"):
+                if want not in names:
+                    bad = f"expected {want}, got {names}"
+            elif d.get("field") and ("SuitableVariantNotFoundError" in names
+                                     or "MissingDiscriminatorError" in names):
+                bad = f"expected {want} from the tagged class, got {names}"
+    if bad:
+        return {"class": "registry-model-mismatch", "ref": {"model": list(m)}, "detail": bad,
+                "diff_at": None}
+    return None
+
+
+def exec_c12(case):
+    return E.Execution(case["spec"], case["ops"], extra_oracle=oracle_c12)
+
+
+GENERATORS["C12"] = gen_c12
+EXECUTORS["C12"] = exec_c12
+
+
+# --------------------------------------------------------------------------
+# C15 — all entry points agree; creating codecs/subclasses changes nothing
+# --------------------------------------------------------------------------
+
+def gen_c15(rng, profile):
+    from . import family as F
+    kn = gen.gen_knobs(rng, profile)
+    kn.update({"threads": False, "aborts": False, "codecs": True, "sub_in_base": False,
+               "cfg_dialect": False})
+    if rng.random() < 0.6:
+        kn["chunks"] = rng.choice([2, 3])
+        kn["inherit"] = True
+    spec = gen.gen_family(rng, kn)
+    fam = F.Fam(spec)
+    base_ops = gen.gen_history(rng, spec, kn, n_ops=rng.randint(3, 9))
+    ops = []
+    cur = 1
+    defined = fam.defined_after(cur)
+
+    def agree_event():
+        cands = [n for n in fam.order if n in defined and fam.cls(n).get("kind") != "nt"
+                 and not fam.cls(n).get("tvars")
+                 and not fam.own_cfg(n).get("discriminator")]
+        if not cands:
+            return None
+        cname = rng.choice(cands)
+        fmts = ["basic", "basic", "basic"]
+        for m, f in (("JSON", "json"), ("ORJSON", "orjson"), ("MsgPack", "msgpack"), ("YAML", "yaml")):
+            if m in fam.mixins(cname):
+                fmts.append(f)
+        if rng.random() < 0.2:
+            fmts.append(rng.choice(["json", "orjson", "msgpack", "yaml"]))
+        op = {"k": "agree", "cls": cname, "fmt": rng.choice(fmts)}
+        try:
+            v = gen.gen_value(rng, fam, ["cls", cname], defined, kn=kn)
+        except gen.Unbuildable:
+            v = None
+        if v is not None and not kn.get("subclass_values", True) and gen.has_subclass_instance(
+                fam, v, ["cls", cname]):
+            v = None
+        # an outer class holding cname in a plain required/any field
+        outers = []
+        for o in fam.order:
+            if o not in defined or not fam.is_mixin(o) or fam.cls(o).get("tvars"):
+                continue
+            for f in fam.all_fields(o):
+                if f["t"] == ["cls", cname] and o != cname:
+                    outers.append((o, f))
+        if v is not None and rng.random() < 0.55:
+            op["dir"] = "enc"
+            op["val"] = v
+            if outers and op["fmt"] == "basic":
+                o, f = rng.choice(outers)
+                try:
+                    ov = gen.gen_value(rng, fam, ["cls", o], defined, kn=kn)
+                    if ov[1] == o:
+                        ov = ["o", o, [[n_, x] for n_, x in ov[2] if n_ != f["n"]] + [[f["n"], v]]]
+                        op["outer_val"] = ov
+                        keys = [f["n"]]
+                        alias = f.get("alias") or (fam.cfg(o).get("aliases") or {}).get(f["n"])
+                        if alias:
+                            keys.append(alias)
+                        op["outer_keys"] = keys
+                except gen.Unbuildable:
+                    pass
+            return op
+        if v is None:
+            v = gen.gen_value(rng, fam, ["cls", cname], None, kn=kn)
+        doc = gen.to_input(fam, v, {"dialect": None, "tagpick": 0})
+        if kn.get("bad_inputs") and rng.random() < 0.15:
+            doc, _ = gen.corrupt(rng, doc)
+        op["dir"] = "dec"
+        op["inp"] = doc
+        if outers and op["fmt"] == "basic" and isinstance(doc, dict):
+            o, f = rng.choice(outers)
+            try:
+                ov = gen.gen_value(rng, fam, ["cls", o], defined, kn=kn)
+                if ov[1] == o and not fam.own_cfg(o).get("discriminator"):
+                    odoc = gen.to_input(fam, ov, {"dialect": None, "tagpick": 0})
+                    key = f.get("alias") or (fam.cfg(o).get("aliases") or {}).get(f["n"]) or f["n"]
+                    odoc[key] = doc
+                    op["outer_cls"] = o
+                    op["outer_field"] = f["n"]
+                    op["outer_inp"] = odoc
+            except gen.Unbuildable:
+                pass
+        return op
+
+    for op in base_ops:
+        ops.append(op)
+        if op["k"] == "define":
+            cur = op["chunk"] + 1
+            defined = fam.defined_after(cur)
+        if rng.random() < 0.6:
+            a = agree_event()
+            if a:
+                ops.append(a)
+    a = agree_event()
+    if a:
+        ops.append(a)
+    return {"prop": "C15", "spec": spec, "ops": ops, "opts": {"knobs": kn}}
+
+
+def oracle_c15(ex, idx, op, out):
+    if op["k"] != "agree" or out["s"] != "ok":
+        return None
+    res = ex.last_raw
+    if not isinstance(res, dict):
+        return None
+    oks = {k: v[1] for k, v in res.items() if v[0] == "ok"}
+    excs = {k: v[1] for k, v in res.items() if v[0] == "exc"}
+    if oks and excs:
+        return {"class": "entry-points-disagree:value-vs-exception", "ref": None,
+                "detail": {"ok": sorted(oks), "exc": excs}, "diff_at": "/" + sorted(excs)[0]}
+    if len(oks) > 1:
+        names = sorted(oks)
+        first = oks[names[0]]
+        for n_ in names[1:]:
+            if json_dumps(oks[n_]) != json_dumps(first):
+                return {"class": "entry-points-disagree", "ref": None,
+                        "detail": {names[0]: first, n_: oks[n_]},
+                        "diff_at": f"/{n_}" + (E.first_diff(first, oks[n_]) or "")}
+    return None
+
+
+def json_dumps(x):
+    import json
+    return json.dumps(x, sort_keys=True)
+
+
+def exec_c15(case):
+    return E.Execution(case["spec"], case["ops"], extra_oracle=oracle_c15)
+
+
+GENERATORS["C15"] = gen_c15
+EXECUTORS["C15"] = exec_c15
+
+
+# --------------------------------------------------------------------------
+# C20 — schema generation: total, well formed, closed, consistent accumulation
+# --------------------------------------------------------------------------
+
+def gen_c20(rng, profile):
+    from . import family as F
+    kn = gen.gen_knobs(rng, profile)
+    kn.setdefault("schema_omit", True)
+    kn.update({"threads": False, "aborts": False, "codecs": False, "fwd": False, "chunks": 1,
+               "lazy": rng.choice(["none", "none", "mixed"])})
+    if rng.random() < 0.5:
+        kn["cfg_opts"] = True
+    spec = gen.gen_family(rng, kn)
+    if not kn.get("schema_omit", True):
+        for ch in spec["chunks"]:
+            for c in ch:
+                for k in ("omit_none", "omit_default"):
+                    (c.get("cfg") or {}).pop(k, None)
+                if (c.get("cfg") or {}).get("dialect"):
+                    pass
+        for d in spec["dialects"]:
+            d.pop("omit_none", None)
+            d.pop("omit_default", None)
+    fam = F.Fam(spec)
+    pool = [n for n in fam.order if fam.cls(n).get("kind") != "nt" and not fam.cls(n).get("tvars")]
+    gens = [n for n in fam.order if fam.cls(n).get("tvars")]
+    # classes whose build must fail half way: supported nested dataclasses first,
+    # an unsupported field last
+    bads = []
+    for i in range(rng.choice([0, 1, 1, 2])):
+        if not pool:
+            break
+        refs = rng.sample(pool, min(len(pool), rng.randint(1, 2)))
+        bn = f"Bad{i}"
+        bads.append(bn)
+        spec["chunks"][0].append({
+            "name": bn, "mixins": [],
+            "fields": [{"n": f"b{i}_{j}", "t": rng.choice([["cls", x], ["list", ["cls", x]],
+                                                          ["opt", ["cls", x]]])}
+                       for j, x in enumerate(refs)] + [{"n": f"b{i}_bad", "t": ["opaque"]}]})
+    nb = rng.randint(1, 2)
+    builders = []
+    for b in range(nb):
+        params = {"dialect": rng.choice(["draft", "openapi"]),
+                  "all_refs": rng.choice([None, True, True, False]),
+                  "ref_prefix": rng.choice([None, None, "#/components/schemas", "#/defs/", "x://y/z"])}
+        builders.append(params)
+    ops = []
+
+    def type_for():
+        x = rng.random()
+        if bads and x < 0.15:
+            return ["cls", rng.choice(bads)]
+        if gens and x < 0.3:
+            return ["gen", rng.choice(gens), [rng.choice([["int"], ["date"], ["str"]]
+                                                       + [["cls", p] for p in pool[:2]])]]
+        base = ["cls", rng.choice(pool)] if pool else ["int"]
+        y = rng.random()
+        if y < 0.7:
+            return base
+        if y < 0.8:
+            return ["list", base]
+        if y < 0.9:
+            return ["dict", base]
+        return ["opt", base]
+
+    for _ in range(rng.randint(3, 12)):
+        b = rng.randrange(nb)
+        if rng.random() < 0.15:
+            ops.append({"k": "schema", "b": b, "params": builders[b], "what": "defs", "noref": True})
+        else:
+            ops.append({"k": "schema", "b": b, "params": builders[b], "what": "build",
+                        "type": type_for()})
+    return {"prop": "C20", "spec": spec, "ops": ops, "opts": {"knobs": kn}}
+
+
+def _collect_refs(node, out):
+    if isinstance(node, dict):
+        for k, v in node.items():
+            if k == "$ref" and isinstance(v, str):
+                out.append(v)
+            else:
+                _collect_refs(v, out)
+    elif isinstance(node, list):
+        for v in node:
+            _collect_refs(v, out)
+
+
+_validator = []
+
+
+def _check_metaschema(doc):
+    if not _validator:
+        import os
+        import sys
+        deps = os.path.join(os.path.dirname(os.path.dirname(os.path.abspath(__file__))), ".deps")
+        if deps not in sys.path:
+            sys.path.append(deps)
+        import jsonschema
+        _validator.append(jsonschema.Draft202012Validator)
+    V = _validator[0]
+    errs = sorted(V(V.META_SCHEMA).iter_errors(doc), key=str)
+    return errs[0].message[:200] if errs else None
+
+
+def oracle_c20(ex, idx, op, out):
+    if op["k"] != "schema":
+        return None
+    st = getattr(ex.sut, "schema_state", None)
+    if st is None:
+        return None
+    if out["s"] != "ok":
+        return {"class": "schema-build-crash:" + (out.get("e") or {}).get("type", out["s"]),
+                "ref": None, "diff_at": None,
+                "detail": "build_json_schema raised something other than the documented NotImplementedError"}
+    after = st.get("after") or {}
+    before = st.get("before") or {}
+    params = st["params"]
+    if st.get("error") and not _mentions_bad(op.get("type")):
+        return {"class": "schema-build-crash:NotImplementedError", "ref": None, "diff_at": None,
+                "detail": "NotImplementedError for a supported type"}
+    # definitions never change once registered
+    for k, v in before.items():
+        if k not in after:
+            return {"class": "definition-lost", "ref": None, "diff_at": "/" + k, "detail": k}
+        if after[k] != v:
+            return {"class": "definition-changed", "ref": None, "diff_at": "/" + k,
+                    "detail": {"before": v, "after": after[k]}}
+    docs = [("definition:" + k, v) for k, v in after.items()]
+    if "schema" in st:
+        docs.append(("schema", st["schema"]))
+        if st["roundtrip"] != st["schema"]:
+            return {"class": "roundtrip-mismatch", "ref": None,
+                    "diff_at": E.first_diff(st["schema"], st["roundtrip"]),
+                    "detail": {"schema": st["schema"], "roundtrip": st["roundtrip"]}}
+    for label, doc in docs:
+        msg = _check_metaschema(doc)
+        if msg:
+            return {"class": "metaschema-invalid", "ref": None, "diff_at": "/" + label, "detail": msg}
+    # closure of references
+    prefix = params.get("ref_prefix")
+    if prefix is None:
+        prefix = "#/components/schemas" if params.get("dialect") == "openapi" else "#/$defs"
+    prefix = prefix.rstrip("/")
+    refs = []
+    for _, doc in docs:
+        _collect_refs(doc, refs)
+    for r_ in refs:
+        if not r_.startswith(prefix + "/"):
+            return {"class": "ref-prefix", "ref": None, "diff_at": None,
+                    "detail": {"ref": r_, "prefix": prefix}}
+        if r_[len(prefix) + 1:] not in after:
+            return {"class": "dangling-ref", "ref": None, "diff_at": None,
+                    "detail": {"ref": r_, "definitions": sorted(after)}}
+    # each definition equals what a fresh builder registers for that class alone
+    mod = ex.sut.mod
+    for k in sorted(set(after) - set(before)):
+        cls = getattr(mod, k, None)
+        if cls is None:
+            continue
+        if getattr(cls, "__parameters__", None):
+            continue  # which specialisation a generic's name denotes is the K8 question below
+        fresh = E.make_schema_builder(dict(params, all_refs=True))
+        try:
+            fresh.build(cls)
+        except Exception:
+            continue
+        want = fresh.context.definitions.get(k)
+        if want is not None and want.to_dict() != after[k]:
+            return {"class": "definition-inconsistent", "ref": None, "diff_at": "/" + k,
+                    "detail": {"registered": after[k], "fresh": want.to_dict()}}
+    return None
+
+
+def _mentions_bad(t):
+    import json
+    return t is not None and '"Bad' in json.dumps(t)
+
+
+_warm = []
+
+
+def warm_up_schema_models():
+    """mashumaro's own JSONSchema model classes are lazily compiled dataclasses:
+    process-global state that would make the first run in a process differ from
+    the next.  Compile them all up front (untraced) so a run is a pure function
+    of its seed."""
+    if _warm:
+        return
+    _warm.append(1)
+    import dataclasses
+    from mashumaro.core.meta.helpers import iter_all_subclasses
+    from mashumaro.jsonschema import models
+    from mashumaro.jsonschema.builder import JSONSchemaBuilder, JSONSchemaDefinitions
+    for cls in [models.JSONSchema, *iter_all_subclasses(models.JSONSchema)]:
+        try:
+            cls().to_dict()
+            cls.from_dict({})
+        except Exception:
+            pass
+
+    @dataclasses.dataclass
+    class _W:
+        a: int = 1
+        b: typing.Optional[typing.List[str]] = None
+
+    for all_refs in (True, False):
+        b = JSONSchemaBuilder(all_refs=all_refs)
+        s = b.build(_W).to_dict()
+        models.JSONSchema.from_dict(s).to_dict()
+        b.get_definitions().to_dict()
+
+
+def exec_c20(case):
+    warm_up_schema_models()
+    return E.Execution(case["spec"], case["ops"], extra_oracle=oracle_c20,
+                       step_budget=2_000_000, depth_budget=300)
+
+
+GENERATORS["C20"] = gen_c20
+EXECUTORS["C20"] = exec_c20
